@@ -78,6 +78,7 @@ package system
 //@ iface system.State.IPv6Forwarding(self, iface) (v, err)
 //@   assigns ghost.fwdVal, ghost.fwdName, ghost.fwdFresh
 //@   ensures F1: err == nil ==> ghost.fwdVal == v && ghost.fwdName == iface && ghost.fwdFresh
+//@   ensures F2: err == nil ==> v == sysctlOn(ghost.files, iface, "forwarding")
 
 //@ lib (*github.com/mdlayher/ndp.Conn).Close(c) (err)
 //@   assigns ghost.openConns
@@ -224,3 +225,45 @@ package system
 //@   at call routesByIndex(ra, ridx) (rrs, rerr): ghost.failed = ghost.failed || rerr != nil
 //@   loop 1 invariant L0 [C15]: !ghost.failed && a != nil && a.execute != nil && forall(k, 0, len(ranged(1)), 0 < ranged(1)[k].Index && ranged(1)[k].Index <= 2147483647)
 //@   ensures E1 [C15]: ghost.failed ==> result1 != nil && len(result0) == 0
+
+// ---------------------------------------------------------------------------
+// interface_linux.go, state.go: the operating-system State (C04: the forwarding
+// flag is the kernel's per-interface forwarding sysctl; C11: autoconf is read
+// from and written to the per-interface autoconf sysctl). The files are ghost
+// state (path -> content); a boolean sysctl reads true iff its content is "1\n".
+
+//@ macro sysctlOn(files, iface, key) = fileContent(files, sysctlPath(iface, key)) == "1\n"
+//@ func sysctl
+//@   ensures E1 [C04,C11]: result == sysctlPath(iface, key)
+//@   opt trusted builds the path with fmt.Sprintf and filepath.Join; the text is modelled as sysctlPath
+//@ func sysctlBool
+//@   assigns brk
+//@   ensures E1 [C04,C11]: result1 == nil ==> result0 == (fileContent(ghost.files, file) == "1\n")
+//@   ensures E2 [C04,C11]: result1 != nil ==> !result0
+//@ func getIPv6Forwarding
+//@   assigns brk
+//@   ensures E1 [C04]: result1 == nil ==> result0 == sysctlOn(ghost.files, iface, "forwarding")
+//@ func getIPv6Autoconf
+//@   assigns brk
+//@   ensures E1 [C11]: result1 == nil ==> result0 == sysctlOn(ghost.files, iface, "autoconf")
+//@ func sysctlEnable
+//@   assigns brk, ghost.wrotePath, ghost.wroteData, ghost.files
+//@   at call os.WriteFile(wn, wd, wp): assert W1 [C11]: wn == sysctlPath(iface, key) && bytesStrOf(wd) == ite(enable, "1", "0")
+//@   ensures E1 [C11]: ghost.wrotePath == sysctlPath(iface, key) && ghost.wroteData == ite(enable, "1", "0")
+//@ func setIPv6Autoconf
+//@   assigns brk, ghost.wrotePath, ghost.wroteData, ghost.files
+//@   ensures E1 [C11]: ghost.wrotePath == sysctlPath(iface, "autoconf") && ghost.wroteData == ite(enable, "1", "0")
+
+// The production State: each method is the corresponding sysctl.
+//@ func (systemState).IPv6Forwarding
+//@   opt refines iface:system.State.IPv6Forwarding
+//@   opt refinetags [C04]
+//@   assigns brk, ghost.fwdVal, ghost.fwdName, ghost.fwdFresh
+//@   at return all: ghost.fwdVal = result0 ; ghost.fwdName = iface ; ghost.fwdFresh = true
+//@   ensures E1 [C04]: result1 == nil ==> result0 == sysctlOn(ghost.files, iface, "forwarding")
+//@ func (systemState).IPv6Autoconf
+//@   assigns brk
+//@   ensures E1 [C11]: result1 == nil ==> result0 == sysctlOn(ghost.files, iface, "autoconf")
+//@ func (systemState).SetIPv6Autoconf
+//@   assigns brk, ghost.wrotePath, ghost.wroteData, ghost.files
+//@   ensures E1 [C11]: ghost.wrotePath == sysctlPath(iface, "autoconf") && ghost.wroteData == ite(enable, "1", "0")
